@@ -72,7 +72,7 @@ def _viol(out, pid, check, symptom, site, c, lay, desc, detail, vec=None, config
 
 def run_unit(unit):
     pid, tier, idxs = unit
-    sp = pycodec.space(tier)
+    sp = pycodec.c_space(tier)
     cases = [sp[i] for i in idxs]
     out = UnitOut()
     with Scratch() as sc:
@@ -211,7 +211,7 @@ def _run_case(pid, tier, c, r, h, variant, out, pymod, first_variant):
 
 
 def units(pid, tier):
-    sp = pycodec.space(tier)
+    sp = pycodec.c_space(tier)
     idx = list(range(len(sp)))
     return [(pid, tier, idx[i:i + BATCH]) for i in range(0, len(idx), BATCH)]
 
@@ -241,7 +241,7 @@ def main(pid, tier):
              "every (state, value) is encoded and decoded under every build configuration inside guard pages; "
              "non-trivial = some value bit set and more than one leaf; counted per (state, value, configuration)",
         exhaustive=True,
-        bound="SING(%s) u COMB(2) u TREE(%d), Vmax=%d, builds=%s" % (tier, 4 if tier == "quick" else 5, pycodec.vmax(tier), variants(tier)),
+        bound="SING(%s) u COMB(2) u TREE(%d) u HOMONYMS, Vmax=%d, builds=%s" % (tier, 4 if tier == "quick" else 5, pycodec.vmax(tier), variants(tier)),
     )
     return finish(pid, tier, acc, cov, t0,
                   assumptions=["reference model bpmc/ref.py", "gcc 12 code generation for x86-64 (little-endian host)",
